@@ -165,6 +165,33 @@ impl<T: Write> Write for Inst<T> {
         }
         self.cur.write(&buf[..n])
     }
+    /// A sink with a real gathering write: takes bytes from the slices in order, as many as the plan allows for this call
+    /// (so a short count can end in the middle of any slice).
+    fn write_vectored(&mut self, bufs: &[io::IoSlice<'_>]) -> io::Result<usize> {
+        let total: usize = bufs.iter().map(|b| b.len()).sum();
+        let d = self.point(Kind::Write, total);
+        let mut n = total;
+        match d {
+            Some(Dev::Err) | Some(Dev::ErrSticky) => return Err(injected(Kind::Write)),
+            Some(Dev::Interrupted) => return Err(interrupted()),
+            Some(Dev::WouldBlock) => return Err(would_block()),
+            Some(Dev::Short(j)) => n = n.min(j.max(1)),
+            None => {}
+        }
+        if let Some(c) = self.plan.borrow().chunk {
+            n = n.min(c.max(1));
+        }
+        let mut left = n;
+        for b in bufs {
+            if left == 0 {
+                break;
+            }
+            let k = b.len().min(left);
+            self.cur.write_all(&b[..k])?;
+            left -= k;
+        }
+        Ok(n - left)
+    }
     fn flush(&mut self) -> io::Result<()> {
         match self.point(Kind::Flush, 0) {
             Some(Dev::Err) | Some(Dev::ErrSticky) => Err(injected(Kind::Flush)),
